@@ -868,7 +868,23 @@ theorem kernels_of_table_lanewise (name : String) (s : KShape) (_h : kernelTable
       kernelRunT (V := fun α => α) SimdLike.scalar R cj s (X.lane l alpha) (laneRMat X l A) (laneVec X l xt) (laneVec X l yt) :=
   kernels_translated_lanewise X hX R cj s alpha A x y xt yt l
 
+include hX in
+/-- the vector-space operations of `DenseMatrix` on matrices of SIMD numbers — `A += B`, `A -= B`, `A *= k`, `A /= k` (a per-lane
+    factor `k`), `-A`, `A.axpy(k, B)` — are lane-wise, for every rectangular size -/
+theorem matrix_space_ops_lanewise (k : V K) (A B : RMat (V K) r c) (l : Fin L) :
+    laneRMat X l (matAdd X R A B) = matAdd (V := fun α => α) SimdLike.scalar R (laneRMat X l A) (laneRMat X l B) ∧
+    laneRMat X l (matSub X R A B) = matSub (V := fun α => α) SimdLike.scalar R (laneRMat X l A) (laneRMat X l B) ∧
+    laneRMat X l (matScale X R k A) = matScale (V := fun α => α) SimdLike.scalar R (X.lane l k) (laneRMat X l A) ∧
+    laneRMat X l (matDiv X R k A) = matDiv (V := fun α => α) SimdLike.scalar R (X.lane l k) (laneRMat X l A) ∧
+    laneRMat X l (matNeg X R A) = matNeg (V := fun α => α) SimdLike.scalar R (laneRMat X l A) ∧
+    laneRMat X l (matAxpy X R k A B) =
+      matAxpy (V := fun α => α) SimdLike.scalar R (X.lane l k) (laneRMat X l A) (laneRMat X l B) :=
+  matSpace_lanewise X hX R l k A B
+
 end TranslatedKernels
+
+example : matAxpy (SimdLike.loop 2) intArith (#v[2, -1] : Vec Int 2) (#v[#v[#v[1, 1], #v[0, 5]]] : RMat (Vec Int 2) 1 2)
+    #v[#v[#v[3, 3], #v[4, 4]]] = #v[#v[#v[7, -2], #v[8, 1]]] := by decide +kernel
 
 -- non-vacuity (explicit shapes, so that a harmless change of an option in the source does not disturb the examples):
 -- `y -= alpha A x` with a per-lane alpha on a 2×3 matrix of two lanes, and the hermitian `y += A^H x`
